@@ -30,6 +30,12 @@ type C08Node struct {
 type C08Request struct {
 	User string `json:"user"`
 	Path string `json:"path"` // absolute with ROOT prefix, or relative to the server's cwd with CWD prefix
+	// Retarget: the request is for a private symbolic link (Path, ROOT/sw/cur<i>.lnk)
+	// that points to First while the session follows it (tail), and is re-pointed
+	// to Then before the same session asks to cat it: the second request must be
+	// judged by where the link points then
+	First string `json:"first,omitempty"`
+	Then  string `json:"then,omitempty"`
 }
 
 type C08Scenario struct {
@@ -99,6 +105,14 @@ func c08Gen(r *Rand, tier string, i int) Scenario {
 	nr := r.Range(2, 10)
 	for k := 0; k < nr; k++ {
 		sc.Requests = append(sc.Requests, C08Request{User: c08Users[r.Intn(nu)], Path: reqs[r.Intn(len(reqs))]})
+	}
+	if r.Bool(0.25) {
+		targets := []string{"pub/a.log", "priv/key.log", "pub/secret.log", "d1/m.log", "priv/ok.log", "d2/lower"}
+		n := r.Range(1, 2)
+		for k := 0; k < n; k++ {
+			sc.Requests = append(sc.Requests, C08Request{User: c08Users[r.Intn(nu)], Path: fmt.Sprintf("ROOT/sw/cur%d.lnk", len(sc.Requests)),
+				First: targets[r.Intn(len(targets))], Then: targets[r.Intn(len(targets))]})
+		}
 	}
 	sc.Net = verifsimnet.Profile{LatencyMs: PickOf(r, 0, 1)}
 	return sc
@@ -247,6 +261,13 @@ func c08Run(t *testing.T, s Scenario, src verifsim.DecisionSource, keep bool) *R
 			if !filepath.IsAbs(p) {
 				p = filepath.Join(w.Dir, p)
 			}
+			if rq.First != "" {
+				// judged by the final target; the link itself is created (pointing to
+				// First) just below and re-pointed by the session
+				must(os.MkdirAll(filepath.Dir(p), 0755))
+				os.Remove(p)
+				must(os.Symlink(filepath.Join(root, rq.Then), p))
+			}
 			matches, _ := filepath.Glob(filepath.Clean(p))
 			for _, m := range matches {
 				resolved, ok := resolvePath(m, 0)
@@ -261,6 +282,12 @@ func c08Run(t *testing.T, s Scenario, src verifsim.DecisionSource, keep bool) *R
 					rel, _ := filepath.Rel(root, resolved)
 					o.allowed[rel]++
 				}
+			}
+		}
+		for _, rq := range sc.Requests {
+			if rq.First != "" {
+				os.Remove(sub(rq.Path))
+				must(os.Symlink(filepath.Join(root, rq.First), sub(rq.Path)))
 			}
 		}
 		done := make(chan struct{}, len(sc.Requests))
@@ -282,6 +309,20 @@ func c08Run(t *testing.T, s Scenario, src verifsim.DecisionSource, keep bool) *R
 				}
 				if err := rs.Shell(); err != nil {
 					o.err = "shell: " + err.Error()
+					return
+				}
+				if rq.First != "" {
+					rs.Command(CatCommand("tail", sub(rq.Path), ""))
+					w.Sleep(200 * time.Millisecond)
+					os.Remove(sub(rq.Path))
+					must(os.Symlink(filepath.Join(root, rq.Then), sub(rq.Path)))
+					w.Sim.Fault("symlink.retargeted")
+					w.Sleep(50 * time.Millisecond)
+					rs.Command(CatCommand("cat", sub(rq.Path), ""))
+					w.Sleep(2 * time.Second)
+					o.ended = true
+					o.msgs = rs.Messages()
+					rs.Close()
 					return
 				}
 				rs.Command(CatCommand("cat", sub(rq.Path), ""))
